@@ -320,10 +320,11 @@ class _Reparse:
                     for key in (f.name, f.attname):
                         if key in data:
                             c = self.locate(fd["type"], data[key], inner)
-                            tolerant = (f.field.on_error or getattr(inner, "invalid_values", None)) in ("preserve", "exclude")
+                            tolerant = (f.field.on_error or getattr(inner, "invalid_values", None)) in ("preserve",)
                             if c and not (tolerant and "ok" not in c.get("observed", {})):
                                 # (a value the field keeps although its type rejects it — on_error / invalid_values
-                                # 'preserve' — is rejected and kept again: a fixed point of the field)
+                                # 'preserve' — is rejected and kept again: a fixed point of the field; with 'exclude' the
+                                # field is dropped or defaulted instead, so the field type's behaviour is the cause)
                                 return c
                             break
                 return dict(here, kind="dc", dropped_required_no_output=missing)
@@ -389,7 +390,10 @@ def impl_reparse(case):
                 continue
             if f.type is None:
                 continue
-            k, r = R.run(lambda: utype.type_transform(d, f.type, options=K.__options__))
+            # the options the fields of K are parsed under: K's own, except at the top level of a `__from__` call
+            # with explicit runtime options (these replace the class's, cls.py init_dataclass)
+            eff = R.opts if (K is R.T and case.get("entry") == "from" and R.opts is not None) else K.__options__
+            k, r = R.run(lambda: utype.type_transform(d, f.type, options=eff))
             if not (k == "ok" and deep_equal(r, d) and deep_equal(d, r)):
                 bad.append(f"{K.__name__}.{name}")
     out["nonconforming_defaults"] = bad
@@ -424,7 +428,7 @@ def impl_reparse(case):
                     for key in (f.name, f.attname):
                         if fd and key in plain:
                             cul = R.locate(fd["type"], plain[key], inner)
-                            tolerant = (f.field.on_error or getattr(inner, "invalid_values", None)) in ("preserve", "exclude")
+                            tolerant = (f.field.on_error or getattr(inner, "invalid_values", None)) in ("preserve",)
                             if cul and tolerant and "ok" not in cul.get("observed", {}):
                                 cul = None
                             break
